@@ -10,7 +10,7 @@ for l in open('/verif/properties.jsonl'):
         break
 print(f"""You are helping test a verification effort for the open-source Python project QuTech-Delft/netqasm (a quantum-network instruction set: SDK that builds IR, assembler/encoder, NV transpiler, base executor/interpreter).
 
-You have your own scratch git worktree of the repository at {wt} . Work ONLY inside {wt} (never touch /repo or /verif, never read /verif). The package is importable from the worktree when your working directory is the worktree root: run things as `cd {wt} && /venv/bin/python your_script.py` or `cd {wt} && /venv/bin/python -m pytest -q -p no:cacheprovider --timeout=900 --continue-on-collection-errors tests` (the 21 collection errors under tests/test_external are expected: they need an external simulator; 171 tests pass on the unchanged tree). There is no network access.
+You have your own scratch git worktree of the repository at {wt} . Work ONLY inside {wt} (never touch /repo or /verif, never read /verif). The package is importable from the worktree when your working directory is the worktree root: run things as `cd {wt} && /venv/bin/python your_script.py` or `cd {wt} && /venv/bin/python -m pytest -q -p no:cacheprovider --timeout=900 --continue-on-collection-errors tests` (the 21 collection errors under tests/test_external are expected: they need an external simulator; 171 tests pass on the unchanged tree). There is no network access. Do NOT use `git stash` (the stash is shared with other worktrees); to switch between changed and unchanged trees use `git apply <diff>`, `git apply -R <diff>` and `git -C <worktree> checkout -- netqasm`.
 
 Here is a semantic property of netqasm that is supposed to hold:
 
